@@ -108,7 +108,7 @@ class Gef:
             if e.get('variant'):
                 nm += '::' + e['variant']['name']
             parts = [self.term(a, depth + 1, visiting) for a in v.args]
-            parts = [x for x in parts if x != 'default()']      # zero-sized markers differ between copies by construction
+            parts = [x for x in parts if x != 'default()' and not x.startswith('PhantomData')]      # zero-sized markers differ between copies by construction
             r = '%s{%s}' % (self.name(nm), ','.join(parts))
         elif k == 'phi':
             if v.id in visiting:
